@@ -28,10 +28,10 @@ ASSUMPTIONS = ["no two timer/arrival instants of different callers coincide in t
 P = S.P
 
 
-def mk_case(n, order, slots, extras, Dk):
+def mk_case(n, order, slots, extras, Dk, auto_ids=False):
     """n callers; `order` = permutation of caller indices (answer order; None = not answered);
     `slots` = poll-period index of each answer; extras = list of (slot, kind)."""
-    callers = [{"id": {"s": f"req-{i}"}, "start": i, "D": Dk[i] * P + 256} for i in range(n)]
+    callers = [{"id": (None if auto_ids else {"s": f"req-{i}"}), "start": i, "D": Dk[i] * P + 256} for i in range(n)]
     ev = []
     seq = 0
     for pos, (who, q) in enumerate(zip(order, slots)):
@@ -41,9 +41,9 @@ def mk_case(n, order, slots, extras, Dk):
             continue
         kind, i = who
         if kind == "resp":
-            ev.append([a, {"k": "resp", "id": {"s": f"req-{i}"}, "p": {"for": i, "n": pos}}])
+            ev.append([a, {"k": "resp", "id": {"$CALLER": i}, "p": {"for": i, "n": pos}}])
         else:
-            ev.append([a, {"k": "err", "id": {"s": f"req-{i}"}, "code": -32603, "msg": f"e{i}"}])
+            ev.append([a, {"k": "err", "id": {"$CALLER": i}, "code": -32603, "msg": f"e{i}"}])
     for q, kind in extras:
         seq += 1
         a = q * P + 16 + seq
@@ -52,7 +52,7 @@ def mk_case(n, order, slots, extras, Dk):
         elif kind == "foreign":
             ev.append([a, {"k": "resp", "id": {"s": "nobody"}, "p": {"x": 1}}])
         elif kind == "req":
-            ev.append([a, {"k": "req", "id": {"s": "req-0"}, "method": "roots/list"}])
+            ev.append([a, {"k": "req", "id": {"$CALLER": 0}, "method": "roots/list"}])
     ev.sort(key=lambda x: x[0])
     return {"callers": callers, "ev": ev}
 
@@ -70,6 +70,8 @@ class Concurrent(Suite):
                 for slots in ([0] * n, list(range(n)), [1] * n):
                     for extras in ([], [(0, "notif")], [(0, "notif"), (1, "foreign")]):
                         out.append(mk_case(n, [("resp", i) for i in perm], slots, extras, [4] * n))
+                        if not extras:
+                            out.append(mk_case(n, [("resp", i) for i in perm], slots, extras, [4] * n, auto_ids=True))
         rng = ctx.sub_rng("c18", budget)
         m = 4000 if budget == "quick" else 100000
         for _ in range(m):
@@ -81,15 +83,15 @@ class Concurrent(Suite):
                 order.append(None if r < 0.1 else (("resp" if rng.random() < 0.8 else "err"), rng.randrange(n)))
             slots = sorted(rng.randint(0, 5) for _ in range(k))
             extras = [(rng.randint(0, 5), rng.choice(["notif", "foreign", "req"])) for _ in range(rng.randint(0, 4))]
-            out.append(mk_case(n, order, slots, extras, [rng.randint(1, 5) for _ in range(n)]))
+            out.append(mk_case(n, order, slots, extras, [rng.randint(1, 5) for _ in range(n)], auto_ids=rng.random() < 0.4))
         ctx.exhaustive_parts.append("concurrent: every permutation of the answer order for 1..4 callers")
         return out
 
     def impl(self, case):
         return S.run_case(case)
 
-    def model_line(self, case):
-        return S.model_line(case)
+    def model_line(self, case, o=None):
+        return S.model_line(case, o)
 
     def model_obs(self, out, case):
         return out
@@ -112,8 +114,13 @@ class Concurrent(Suite):
         return len(case["callers"]) >= 2
 
     def oracle(self, case, o):
+        wire = [c.get("wire_id") for c in o["callers"]]
+        for i in range(len(wire)):
+            for j in range(i + 1, len(wire)):
+                if wire[i] is not None and wire[i] == wire[j] and type(wire[i]) is type(wire[j]):
+                    return ("duplicate-request-id", f"callers {i} and {j} both put id {wire[i]!r} on the wire: their responses cannot be told apart", None)
         for i, (spec, c) in enumerate(zip(case["callers"], o["callers"])):
-            mine = [(a, ev) for a, ev in case["ev"] if ev["k"] in ("resp", "err") and ev["id"] == spec["id"]]
+            mine = [(a, ev) for a, ev in case["ev"] if ev["k"] in ("resp", "err") and ev["id"] in ({"$CALLER": i}, spec.get("id"))]
             if c["outcome"] == "exception":
                 return ("unexpected-exception", f"caller {i}: {c.get('exc')}", None)
             if c["outcome"] == "returned":
@@ -136,7 +143,8 @@ class Concurrent(Suite):
         if len(case["callers"]) > 2:
             for i in range(len(case["callers"])):
                 cs = case["callers"][:i] + case["callers"][i + 1:]
-                yield {"callers": cs, "ev": ev}
+                if not any(isinstance(e.get("id"), dict) and "$CALLER" in e["id"] for _, e in ev):
+                    yield {"callers": cs, "ev": ev}
 
 
 def suites():
